@@ -107,6 +107,17 @@ def _find_memo_caches():
     return found
 
 
+def clear_memo_caches():
+    """Empty every glue @memoize dictionary (used by observers that must not see C05-type staleness)."""
+    global _MEMO_CACHES
+    nmods = len(sys.modules)
+    if _STATE.get('nmods') != nmods or not _MEMO_CACHES:
+        _MEMO_CACHES = _find_memo_caches()
+        _STATE['nmods'] = nmods
+    for memo in _MEMO_CACHES:
+        memo.clear()
+
+
 def reset_globals():
     """Bring process-global glue state back to that of a fresh interpreter."""
     import glue.core.registry as reg
